@@ -17,6 +17,12 @@ Streams
   hyp       the two named hypotheses of the `_partial` theorem, evaluated by the driver on every
             accepted step: `front` (an append leaves typedef extraction / continuation joining
             undisturbed) and `render` (after a write the re-parse returns the view that was written).
+            (Since the extension round both are THEOREMS on C01's domain: `front_stable`, `render_loop`.)
+  dom       the hypotheses of the full theorem `history_content` evaluated on every generated history
+            (start document docOK, rawOK, start file = renderFile of the document, histOK) - counts how
+            many histories lie inside its domain - and, inside, its conclusion (the view after the
+            last op is viewOfDoc of the expected document) on the model run that was just compared
+            with pydl.
 Failing op sequences are shrunk with core.shrink_list (ops, then appended entries).
 """
 import os
@@ -40,8 +46,11 @@ THEOREMS = [P + t for t in (
     'prefix_preserved', 'prefix_preserved_run',
     'view_always', 'inv_load', 'reread_same', 'inv_step', 'inv_run', 'write_restores_inv',
     'splitNl_append', 'lineLoop_append', 'parse_append', 'chunk_loop',
-    'append_content', 'history_content_partial')]
-# FrontStable / RestNl / RenderLoop: hypotheses of history_content_partial, evaluated by the driver (stream hyp)
+    'append_content', 'history_content_partial',
+    # extension round: the two named hypotheses discharged on C01's document domain, the full theorem
+    'front_stable', 'front_appended', 'render_loop', 'track_run', 'history_content', 'history_content_file')]
+# FrontStable / RestNl / RenderLoop: hypotheses of history_content_partial, still evaluated by the driver (stream hyp);
+# on C01's domain they are proved (front_stable, render_loop) and history_content has no named hypothesis left
 RULE = ('op sequences of length 1-12 over documents of 1-3 tables (c01 generator: every column kind, arrays, enums, header pairs), '
         'normal and raw mode, starting from the object returned by write_ndarray_to_yanny or from a fresh read; '
         'a case is non-trivial when at least one op is accepted and changes a file; distinct = distinct case payloads')
@@ -59,14 +68,22 @@ LEVEL_TEXT = ('Lean 4 theorems over an executable state machine (file system + o
               'refusals and the empty append change nothing, write never replaces and append never creates a file, every file only grows by '
               'suffixes under the object\'s own operations, the coherence invariant (file = _contents, object = _parse(_contents)) is preserved by '
               'every operation and over every history (induction), an accepted append extends the parsed document by exactly the appended pairs '
-              'and rows (built on C01\'s line theorems); plus correspondence of real op sequences on real files with the model and an '
-              'independent statement-level oracle.')
-LEVEL_NOTE = ('Partial: history_content_partial is proved relative to two named hypotheses that the driver evaluates on every accepted step of every '
-              'generated history (FrontStable: typedef extraction and continuation joining are undisturbed by the appended chunk; RenderParse: '
-              're-parsing the text write() renders returns the view written - the unfinished file-level C01 theorem). The content theorems are '
-              'stated on the rows/pairs read by the line loop (= raw mode); normal mode applies C01\'s finishTables to that state (modelled, compared). '
-              'In raw mode a float32 datum is outside the content theorem (it reads back as binary64); there only correspondence and oracle apply. '
-              'Floats by C01 h1/h2.')
+              'and rows (built on C01\'s line theorems); and the full statement history_content: for every history of the object\'s operations that '
+              'starts from the file written for a C01-domain document (docOK) and stays in that domain (histOK, decidable: every accepted append '
+              'adds docOK rows/pairs, every accepted write renders a docOK document), the object\'s text reads as the initial document followed by '
+              'every accepted appended pair and row in order, object and file agree, and the object\'s view is exactly that document - in normal '
+              'mode the record arrays with canonical column types and unchanged cells (C01 finish_render), in raw mode the lists. '
+              'Plus correspondence of real op sequences on real files with the model and an independent statement-level oracle.')
+LEVEL_NOTE = ('history_content_partial (kept) had two named hypotheses; both are now proved on C01\'s document domain: FrontStable by front_stable / '
+              'front_appended (the lines append() builds contain no typedef, no newline, no continuation mark, so front(text ++ chunk) = front(text) '
+              'with the lines appended to the rest), RenderLoop by render_loop (renderView of the view of a document = C01 textOf of that document, '
+              'then C01 front_render/typing_render/loop_render); history_content assembles them by induction (track_run) and has no named hypothesis. '
+              'Its side conditions are decidable and evaluated by the driver on every generated history (stream dom: about half of the generated '
+              'histories are inside; the others contain an environment op - unlink/rebind - or are raw mode with a float32 column). '
+              'Still outside: raw mode with a float32 column (the datum reads back as binary64; correspondence and oracle only); the per-line D4 '
+              'exclusions (double-brace pattern, typedef text, trailing backslash) that docOK carries; floats by C01 H1/H2 (hypotheses of the theorems, '
+              'sampled by C01). An accepted write is required to render a docOK document (re-checked per write, not derived from the appended cells).')
+
 
 PEXC = 'PydlException:PydlutilsException'
 _counter = itertools.count()
@@ -212,7 +229,9 @@ def gen_case(rng, maxops=12):
             elif j == 3:
                 t = rng.choice(doc['tables'])
                 mixed = t['name'].lower()[:1].upper() + t['name'].lower()[1:-1] + t['name'].lower()[-1:].upper() + ''
-                if mixed in (t['name'].lower(), t['name'].upper()):
+                # append() takes a key that is the lower- or upper-case spelling of ANY table name (C01's generator makes
+                # names that contain one another, e.g. `d` and `dd`: the mixed spelling `DD` of `d` names the table `dd`)
+                if any(mixed in (x.lower(), x.upper()) for x in tnames):
                     entries = []
                 else:
                     entries = [{'key': mixed, 'pair': 3}]
@@ -485,10 +504,52 @@ def lean_ops(case, base):
     return out
 
 
+def start_doc(doc):
+    """the document (C01 driver format) the start file f0.par is `renderFile` of: the default comment
+    block names the file actually written"""
+    d = c01.lean_doc(doc)
+    if doc.get('carg') is None:
+        d['comments'] = d['comments'].replace('# file.par\n', '# f0.par\n')
+    return d
+
+
 def model_line(case, base, text0):
     names = case_names(case)
     return {'p': 'C03', 'op': 'run', 'raw': bool(case['raw']), 'files': [[os.path.join(base, 'f0.par'), text0]],
-            'start': os.path.join(base, 'f0.par'), 'paths': [os.path.join(base, n) for n in names], 'ops': lean_ops(case, base)}
+            'start': os.path.join(base, 'f0.par'), 'paths': [os.path.join(base, n) for n in names], 'ops': lean_ops(case, base),
+            'doc': start_doc(case['doc'])}
+
+
+def judge_domain(ctx, stream, case, m):
+    """hypotheses and conclusion of the theorem `history_content` on this history (evaluated by the driver):
+    counts whether the generated history lies inside the theorem's domain and, if so, requires its conclusion
+    (the view after the last op is viewOfDoc of the expected document) of the model run just compared with pydl"""
+    dom = m.get('dom')
+    if not dom:
+        return
+    env = [op['k'] for op in case['ops'] if op['k'] in ('unlink', 'rebind')]
+    if not dom['docok']:
+        why = 'out:start-document-not-docOK'
+    elif not dom['rawok']:
+        why = 'out:raw-mode-float32-column'
+    elif not dom['text']:
+        why = 'out:start-file-is-not-renderFile'
+    elif not dom['hist']:
+        bad = dom.get('bad')
+        k = case['ops'][bad]['k'] if bad is not None and 0 <= bad < len(case['ops']) else '?'
+        why = 'out:environment-op(%s)' % k if k in ('unlink', 'rebind') else 'out:%s-leaves-docOK' % k
+    else:
+        why = 'in'
+    ctx.count('dom:%s' % why)
+    if why == 'in':
+        ctx.count('dom:in:ops:%d' % len(case['ops']))
+        if env:
+            ctx.disagree('dom', {'stream': stream, 'case': case}, 'environment op present', 'histOK accepted a history with %s' % env)
+        if dom['final'] is not True:
+            ctx.disagree('dom', {'stream': stream, 'case': case}, 'history inside the domain of history_content',
+                         'conclusion false: final view is not viewOfDoc(histDoc)')
+        else:
+            ctx.count('dom:in:conclusion-holds')
 
 
 def fbits(w, t):
@@ -797,6 +858,8 @@ def _cases(ctx, cases, stream='hist'):
             small = shrink_disagreement(ctx, c) if ctx.coverage['%s:disagree' % stream] <= 3 else c
             ctx.disagree(stream, {'stream': stream, 'case': small}, 'step %d: %s' % (i, what), 'see replay')
             continue
+        # the theorem history_content on this history: inside its domain? then its conclusion must hold
+        judge_domain(ctx, stream, c, m)
         # the named hypotheses of history_content_partial on the steps actually taken
         for st in m['steps']:
             h = st.get('hyp')
